@@ -671,11 +671,14 @@ def check(pid, tier, seed, replay_path, replay_tie=None):
             "violations": (1 if rc else 0),
         }
         if not replay_path:
-            os.makedirs(os.path.join(ROOT, "evidence"), exist_ok=True)
-            tmp = os.path.join(ROOT, "evidence", ".%s.%d.tmp" % (pid, os.getpid()))
+            # evidence/ describes runs against /repo itself; a run pointed at another tree through
+            # VERIF_REPO (seeded-change testing) leaves its record under .scratch instead
+            evdir = os.path.join(ROOT, "evidence") if os.path.realpath(REPO) == "/repo" else os.path.join(ROOT, ".scratch", "evidence-other-tree")
+            os.makedirs(evdir, exist_ok=True)
+            tmp = os.path.join(evdir, ".%s.%d.tmp" % (pid, os.getpid()))
             with open(tmp, "w") as fh:
                 json.dump(ev, fh, indent=1)
-            os.replace(tmp, os.path.join(ROOT, "evidence", pid + ".json"))
+            os.replace(tmp, os.path.join(evdir, pid + ".json"))
         log("%s %s tier=%s seed=%d obligations=%d/%d cases=%d distinct_nontrivial=%d wall=%.1fs" % (
             pid, "OK" if rc == 0 else "FAILED", tier, seed, len(theorems_ok), len(obligations),
             evaluations, distinct_nt, time.time() - t0))
